@@ -653,7 +653,7 @@ class Case(object):
                         dt = 0.0
                     else:
                         r = rng.random()
-                        dt = time_to_boundary * (0.0 if r < 0.1 else 0.999 if r < 0.25 else rng.random())
+                        dt = time_to_boundary * (0.0 if r < 0.1 else 0.999 if r < 0.25 else min(rng.random(), 0.999))
                     new_leaf = self.choose_new_active(truth, active_leaf)
                     new_cl = new_leaf[:self.cell_level]
                     old_cell_full = limit > 0 and len(self.occ[self.byid[cell_before]]) >= limit
@@ -702,7 +702,7 @@ def run(level, seed):
     combos = [(box, limit, mode, filtered, declared) for box in BOXES for limit in LIMITS for mode in MODES
               for filtered in (False, True) for declared in ("hypercubic", "hypercuboid")]
     rng.shuffle(combos)
-    cases, legs = (480, 60) if level <= 1 else (2600, 110)
+    cases, legs = (480, 60) if level <= 1 else (5000, 120)
     stats = {"evaluations": 0, "violations": []}
     coverage = {}
     samples = []
